@@ -158,11 +158,23 @@ ada_really_inline uint64_t try_parse_ipv4_avx512(const char* data,
   if ((is_digit | is_dot) != live) {
     return ipv4_fast_fail;
   }
+  // The converter below trusts the shape "d{1,3}.d{1,3}.d{1,3}.d{1,3}[.]":
+  // reject a leading dot, two adjacent dots (empty part) and runs of more
+  // than three digits here.
+  const unsigned dots = static_cast<unsigned>(is_dot);
+  const unsigned digits = static_cast<unsigned>(is_digit);
+  if ((dots & 1u) != 0 || (dots & (dots << 1)) != 0 ||
+      (digits & (digits << 1) & (digits << 2) & (digits << 3)) != 0) {
+    return ipv4_fast_fail;
+  }
   const unsigned dot_count =
       static_cast<unsigned>(_mm_popcnt_u32(static_cast<unsigned>(is_dot)));
   size_t effective_len = len;
   if (dot_count == 3) {
-    // ok
+    // The last part must not be empty.
+    if (data[len - 1] == '.') {
+      return ipv4_fast_fail;
+    }
   } else if (dot_count == 4 && data[len - 1] == '.') {
     effective_len = len - 1;  // strip trailing dot for convert
   } else {
